@@ -55,7 +55,7 @@ def run(a):
                 c.cov["input_distribution"] = st
                 m = c.run_model(exe, ops)
                 if m:
-                    c.diff(ops, impl, m, stateful=True, hbin=hbin, exe=exe, max_report=40)
+                    c.diff(ops, impl, m, stateful=True, hbin=hbin, exe=exe, max_report=40, fail_first=True)
                     c.cov["programs"] = 1
                     c.cov["exhaustive"] = False
         c.prove("ClientGoVerif.Props.C11")
@@ -86,5 +86,5 @@ def replay(a):
     m = c.run_model(exe, ops)
     for o, i, mm in zip(open(ops).read().splitlines(), open(impl).read().splitlines(), open(m).read().splitlines()):
         print(f"{o[:300]}\n   impl : {i[:300]}\n   model: {mm[:300]}")
-    c.diff(ops, impl, m, stateful=True, hbin=hbin, exe=exe, max_report=40)
+    c.diff(ops, impl, m, stateful=True, hbin=hbin, exe=exe, max_report=40, fail_first=True)
     return c.finish()
